@@ -284,10 +284,24 @@ impl Parser {
                     output_type,
                 })
             }
-            Rule::dot_name_lookup => Ok(DotLookup {
-                lookup_type: DotLookupOption::Name { name: ident_str },
-                output_type: type_of_property.clone(),
-            }),
+            Rule::dot_name_lookup => {
+                // a module lists an exported class under the class's own name, typed as the class. Read
+                // without a call (`K = lib.Dog`), the member is the CONSTRUCTOR of the class, not an
+                // instance of it. (Any other member whose type is a class is an exported instance.)
+                let output_type = match (lhs_ty, type_of_property.get_type_recursively()) {
+                    (TypeLayout::Module(..), TypeLayout::Class(class_type))
+                        if class_type.name() == ident_str =>
+                    {
+                        Cow::Owned(TypeLayout::Function(class_type.constructor()))
+                    }
+                    _ => type_of_property.clone(),
+                };
+
+                Ok(DotLookup {
+                    lookup_type: DotLookupOption::Name { name: ident_str },
+                    output_type,
+                })
+            }
             x => unreachable!("{x:?}"),
         }
     }
